@@ -38,16 +38,22 @@ var (
 	UTC           = time.UTC
 )
 
+//go:norace
 func at(ns int64) Time { return vrt.Epoch.Add(Duration(ns)) }
 
+//go:norace
 func Now() Time { return at(vrt.NowNS()) }
 
+//go:norace
 func Since(t Time) Duration { return Now().Sub(t) }
 
+//go:norace
 func Until(t Time) Duration { return t.Sub(Now()) }
 
+//go:norace
 func Sleep(d Duration) { vrt.SleepNS(int64(d)) }
 
+//go:norace
 func tickVal(ns int64) any { return at(ns) }
 
 type Ticker struct {
@@ -55,6 +61,7 @@ type Ticker struct {
 	h vrt.TickerHandle
 }
 
+//go:norace
 func NewTicker(d Duration) *Ticker {
 	if d <= 0 {
 		panic("non-positive interval for NewTicker")
@@ -63,8 +70,10 @@ func NewTicker(d Duration) *Ticker {
 	return &Ticker{C: ch, h: vrt.NewTickerNS(vrt.StateOf[Time](ch), int64(d), false, tickVal)}
 }
 
+//go:norace
 func (t *Ticker) Stop() { t.h.Stop() }
 
+//go:norace
 func (t *Ticker) Reset(d Duration) {
 	if d <= 0 {
 		panic("non-positive interval for Ticker.Reset")
@@ -73,8 +82,11 @@ func (t *Ticker) Reset(d Duration) {
 }
 
 // VrtKey: a ticker's state lives in the world key.
+//
+//go:norace
 func (t *Ticker) VrtKey() uint64 { return vrt.Mix(0x71c4, vrt.StateOf(t.C).ID) }
 
+//go:norace
 func Tick(d Duration) <-chan Time {
 	if d <= 0 {
 		return nil
@@ -87,6 +99,7 @@ type Timer struct {
 	h vrt.TickerHandle
 }
 
+//go:norace
 func NewTimer(d Duration) *Timer {
 	ch := vrt.MakeChan[Time](1)
 	if d <= 0 {
@@ -95,8 +108,10 @@ func NewTimer(d Duration) *Timer {
 	return &Timer{C: ch, h: vrt.NewTickerNS(vrt.StateOf[Time](ch), int64(d), true, tickVal)}
 }
 
+//go:norace
 func (t *Timer) Stop() bool { return t.h.Stop() }
 
+//go:norace
 func (t *Timer) Reset(d Duration) bool {
 	if d <= 0 {
 		d = 1
@@ -106,11 +121,15 @@ func (t *Timer) Reset(d Duration) bool {
 	return was
 }
 
+//go:norace
 func (t *Timer) VrtKey() uint64 { return vrt.Mix(0x71c5, vrt.StateOf(t.C).ID) }
 
+//go:norace
 func After(d Duration) <-chan Time { return NewTimer(d).C }
 
 // AfterFunc runs f in its own virtual thread after d.
+//
+//go:norace
 func AfterFunc(d Duration, f func()) *Timer {
 	t := NewTimer(d)
 	c := t.C
